@@ -100,8 +100,8 @@ theorem touch_step (now ts ins : Time) (accs : Map String Account) (a : String) 
       rw [if_neg hc, if_neg hc']
 
 /-- K6: `DeleteAccountMetadata`. -/
-theorem deleteAccountMeta_step (d : Db) (a key : String) :
-    projAccounts (deleteAccountMeta a key d) =
+theorem deleteAccountMeta_step (now : Time) (d : Db) (a key : String) :
+    projAccounts (deleteAccountMeta now a key d) =
     (match Map.get? (projAccounts d) a with
      | some x => Map.insert a { x with metadata := x.metadata.erase key } (projAccounts d)
      | none => projAccounts d) := by
@@ -115,8 +115,8 @@ theorem deleteAccountMeta_step (d : Db) (a key : String) :
     simp only [Option.map_some]
     rw [projAccounts_eq, projAccounts_eq, map_insert]; rfl
 
-theorem deleteAccountMeta_frame (d : Db) (a key : String) :
-    (deleteAccountMeta a key d).schemas = d.schemas ∧ (deleteAccountMeta a key d).txs = d.txs := by
+theorem deleteAccountMeta_frame (now : Time) (d : Db) (a key : String) :
+    (deleteAccountMeta now a key d).schemas = d.schemas ∧ (deleteAccountMeta now a key d).txs = d.txs := by
   unfold deleteAccountMeta; split <;> exact ⟨rfl, rfl⟩
 
 /-! ### transaction metadata -/
